@@ -92,8 +92,9 @@ def steps(sc, seconds):
 
 
 def obs_volume(sc, o):
-    """rate x duration, unit independent"""
-    return o['rate'] * o['duration']
+    """rate x duration, unit independent (a length that is not a whole number of steps streams for ceil(steps))"""
+    u = unit_factor(sc.get('unit', 'seconds'))
+    return o['rate'] * u * math.ceil(o['duration'] / u)
 
 
 def serial_bound(sc, latency=3):
@@ -105,7 +106,7 @@ def serial_bound(sc, latency=3):
     min_bw = min(m['bw'] for m in sc['machines']) * u
     b = max(o['start'] for o in sc['obs']) // u
     for o in sc['obs']:
-        b += o['duration'] // u + latency
+        b += math.ceil(o['duration'] / u) + latency
         for n in o['wf']['nodes']:
             rt = max(1, n['comp'] // min_cpu, n.get('task_data', 0) // min_bw)
             rt += sc.get('delays', {}).get(f"{o['name']}:{n['id']}", 0)
@@ -165,7 +166,7 @@ def scenarios(draw, *, max_machines=6, max_obs=4, max_nodes=6,
               modes=('roomy', 'band'), delays=False, units=False,
               adversary=False, delay_model=False, min_obs=1,
               start_gaps=(0, 0, 0, 1, 1, 2, 3, 5, 10), max_duration=6,
-              few_machines=False, piled_plans=False, overlap=False, limit_binds=False, unsorted=False, long_durations=False, b2b=False, twins=False):
+              few_machines=False, piled_plans=False, overlap=False, limit_binds=False, unsorted=False, long_durations=False, b2b=False, twins=False, abs_est=False, zero_rate=False, frac_duration=False):
     nm = draw(st.integers(2 if overlap else 1, 3 if few_machines else max_machines))
     hetero = draw(st.booleans())
     speeds = (1, 2, 5, 10, 20)
@@ -238,12 +239,19 @@ def scenarios(draw, *, max_machines=6, max_obs=4, max_nodes=6,
             if long_durations and draw(st.integers(0, 5)) == 0:
                 duration = draw(st.sampled_from([12, 20, 33, 47]))     # sizes are generation bounds, not code limits
             rate = draw(st.sampled_from([1, 2, 3, 5, 10]))
+            if zero_rate and draw(st.integers(0, 2)) == 0:
+                rate = 0          # an observation that produces no data (the parser also rounds small rates to 0)
             demand = draw(st.sampled_from([d for d in ((1, 2) if (overlap or limit_binds) else (1, 2, 4, 8)) if d <= arrays]))
         if twins and i > 0 and mode not in ('band', 'bandov') and draw(st.booleans()):
             # same planned start and same duration as the previous observation: they begin, stop ingesting and finish together
             t = obs[-1]['start'] // u
             duration = obs[-1]['duration'] // u
-        o = {"name": names[i], "start": t * u, "duration": duration * u, "demand": demand,
+        dur_s = duration * u
+        if frac_duration and u > 1 and mode == 'roomy' and draw(st.booleans()):
+            # a length in seconds that is not a whole number of timesteps (the parser divides, it does not round): the
+            # telescope and the ingest stream then run for ceil(duration) steps
+            dur_s += draw(st.integers(1, u - 1))
+        o = {"name": names[i], "start": t * u, "duration": dur_s, "demand": demand,
              "rate": rate, "ingest": draw(st.integers(1, min(max_ingest, (max(1, max_ingest // 2) if overlap else max_ingest)
                                                                  if not limit_binds else draw(st.sampled_from([1, 1, 2]))))),
              "wf": draw(dags(max_nodes=max_nodes,
@@ -255,7 +263,7 @@ def scenarios(draw, *, max_machines=6, max_obs=4, max_nodes=6,
     if unsorted and len(obs) > 1:
         obs = list(draw(st.permutations(obs)))      # the plan need not list observations in start order
     # unit scaling: rates are per second; per-step rate = rate*u.  Volumes = rate*duration(seconds).
-    vols = [o['rate'] * o['duration'] for o in obs]
+    vols = [o['rate'] * u * math.ceil(o['duration'] / u) for o in obs]
     if mode in ('band', 'bandov'):
         hot = {"capacity": hot_cap}
     elif mode == 'roomy':
@@ -263,13 +271,13 @@ def scenarios(draw, *, max_machines=6, max_obs=4, max_nodes=6,
         hot = {"capacity": need + draw(st.sampled_from([0, 1, 7, need, 9 * need]))}
         if sum(vols) % 3 == 0 and draw(st.integers(0, 2)) == 0:
             # boundary: all data together fill the hot buffer to EXACTLY the 60 % tiering threshold (not beyond it)
-            hot = {"capacity": sum(vols) * 5 // 3}
+            hot = {"capacity": max(1, sum(vols) * 5 // 3)}
     else:  # tiering region: each observation alone fits, but the sum may exceed 60 %
         big = max(vols)
         hot = {"capacity": draw(st.sampled_from([big + 1, int(big * 1.5) + 1, big * 2, big * 3]))}
-    max_rate = max(o['rate'] for o in obs)
+    max_rate = max(1, max(o['rate'] for o in obs))
     hot["rate"] = max_rate * draw(st.sampled_from([1, 1, 2, 5]))
-    cold = {"capacity": max(vols) * draw(st.sampled_from([1, 2, 10])),
+    cold = {"capacity": max(1, max(vols)) * draw(st.sampled_from([1, 2, 10])),
             "rate": draw(st.sampled_from([1, 2, 3, 10, 50]))}
     # --- algorithm pairing
     kind = draw(st.sampled_from(list(algs)))
@@ -305,6 +313,10 @@ def scenarios(draw, *, max_machines=6, max_obs=4, max_nodes=6,
             for n in o["wf"]["nodes"]:
                 if draw(st.integers(0, 3)) == 0:
                     sc["delays"][f"{o['name']}:{n['id']}"] = draw(st.sampled_from([1, 1, 2, 3, 7]))
+    if abs_est and draw(st.booleans()):
+        # a static planner that states the workflow's estimated start on the simulation clock (planning time + observation
+        # length + slack) instead of relative to the observation: later workflows then really do begin "on time"
+        sc["abs_est"] = draw(st.sampled_from([0, 1, 2, 5, 50]))
     if delay_model and draw(st.booleans()):
         sc["delay_model"] = {"prob": draw(st.sampled_from([0.0, 0.3, 0.5, 1.0])),
                              "dist": "normal",
